@@ -20,7 +20,7 @@ RULE = ('case = (operator program of assign/filter operators from the C08 gramma
         'differential against the sequential single-stage run of the same case: equal multiset of emitted records and equal '
         'aggregate, exactly one AggregateResult for the interleaved runner; non-trivial = threads >= 2 or stages >= 2 or shards >= 2 '
         'with >= 3 records; distinct = distinct canonical case JSON'
-        '; also: sources as merged sequences with boundaries at shard ends, shard states merged from a one-shot stream, stage-by-stage manual runs, interleaved runs with aggregate_only, shard states merged by the aggregate-only runner, a second aggregate with a bare-number state (minimum)')
+        '; also: sources as merged sequences with boundaries at shard ends, shard states merged from a one-shot stream, stage-by-stage manual runs, interleaved runs with aggregate_only, shard states merged by the aggregate-only runner, a second aggregate with a bare-number state (minimum) and a third counting rows in a plain int, merges with and without a strict state count')
 ASSUMPTIONS = [
     'threaded variants run under vlib/dsched.py (same trusted base as C04); the interleaved runner uses real threads with a watchdog',
     'the aggregate is exact (integer sum / row count) so merged shard states must reproduce it exactly',
@@ -43,7 +43,8 @@ def _canon(x):
 def _with_agg(t):
   # ... and a second aggregate whose state is a bare number (falsy when the smallest value so far is 0)
   return t.aggregate(targets.RowSum(), input_keys=('a', 'b'), output_keys=('rs', 'rn')).add_aggregate(
-      fn=targets.RowMin(), input_keys='b', output_keys='bmin')
+      fn=targets.RowMin(), input_keys='b', output_keys='bmin').add_aggregate(
+          fn=targets.RowCount(), input_keys='a', output_keys='rcount')
 
 
 def build_stages(case, records, names, shard=None):
@@ -174,7 +175,8 @@ def run_case(case):
       order = strat_.get('order') or list(range(k))
       states = [states[i % k] for i in order] if sorted(i % k for i in order) == list(range(k)) else states
       # the shard states arrive as a list or, as from the orchestration layer, as a one-shot stream
-      merged = runner.merge_states(iter(states) if strat_.get('merge_from') == 'iterator' else states, strict_states_cnt=k)
+      merged = runner.merge_states(iter(states) if strat_.get('merge_from') == 'iterator' else states,
+                                   strict_states_cnt=k if strat_.get('strict', True) else 0)
       got_agg = norm_result(runner.get_result(merged))
     except Exception as e:  # pylint: disable=broad-exception-caught
       raise crash(e, what) from e
@@ -252,7 +254,7 @@ def strat_structural(tier):
       k = draw(st.integers(1, 6))
       case['strategy'] = {'kind': kind, 'k': k, 'order': draw(st.permutations(list(range(k)))),
                           'merge_from': draw(st.sampled_from(['list', 'iterator'])),
-                          'merge_with': draw(st.sampled_from(['runner', 'aggregate_runner']))}
+                          'merge_with': draw(st.sampled_from(['runner', 'aggregate_runner'])), 'strict': draw(st.booleans())}
     else:
       case['strategy'] = {'kind': kind}
     return case
